@@ -11,8 +11,8 @@ from harness.common import *
 import vlib
 
 LEVEL_TEXT = ('Tie: the coefficient formula / guard / term count / exponents of R, the decision tree and leaf products of zernike, the pieces of '
-              'zernike_index (row-search argument, k, r, sign, seeds, loop, append step), the default origin of zernike_coordinates and helper.mesh are '
-              're-translated from the source on every run (Gen/ZernikeR, Gen/Mesh); the model and the driver are built from them. '
+              'zernike_index (row-search argument, k, r, sign, seeds, loop, append step), the default origin of zernike_coordinates, helper.mesh and the block of zernike that decides where (rho, theta) come from (Gen.zernCoordSrc: no rho -> zernike_coordinates(mask), rho without theta -> ValueError, both -> the caller\'s arrays; coordinate_source_dispatch) are '
+              're-translated from the source on every run (Gen/ZernikeR, Gen/Mesh); the body of zernike is now covered statement by statement (cast, coordinate block, index call, tree, return: anything else is refused); the model and the driver are built from them. '
               'Lean 4 theorems: Noll j -> (n, m) is valid (|m| <= n, n-|m| even, even j <-> cosine/+, odd j <-> sine/-) and a bijection '
               'onto the valid (n, m) (explicit inverse, both round trips, all j >= 1); the literal list-and-negative-index code of '
               'zernike_index equals the closed form for every j >= 1 and its row search is the Noll row in exact real arithmetic; '
@@ -34,20 +34,21 @@ LEVEL_NOTE = ('SIGN CONVENTION (of the code, not fixed by the property statement
               'and the empty mask give 0 (the code selects with the mask). Unproven clauses: |Z| <= 1 unnormalised and orthonormality for 20 < n <= 40 only in the thorough tier, for n > 40 not at all '
               '(sampled by the oracle); the float sqrt/ceil row search of zernike_index beyond the sampled range of j.')
 TECHNIQUE = 'Lean 4 proof (omega/induction, Mathlib integrals, decide +kernel exact tables) over translator-regenerated formulas + hand model with differential correspondence'
-GEN = ['ZernikeR', 'Mesh', 'Util', 'Helper', 'Helper20', 'Hex', 'Extent', 'FieldAccum', 'FieldDispatch', 'FieldIdx', 'FieldMerge']      # every Gen module the model, driver and Props import (transitively, through Model/Geometry and Model/Field)
+GEN = ['ZernikeR', 'Mesh', 'Util', 'UtilWindow', 'UtilCentroid', 'Helper', 'Helper20', 'Hex', 'Extent', 'FieldAccum', 'FieldDispatch', 'FieldIdx', 'FieldMerge']      # every Gen module the model, driver and Props import (transitively, through Model/Geometry and Model/Field)
 OPS = ['C11']
 RULE = ('cases: every Noll index 1..861 (all 41 rows n <= 40) against zernike_index; every valid (n, m) with n <= 40 for the radial '
         'coefficients (exact rational evaluation at dyadic nodes); modes j <= 231 (some to 861) on dyadic (rho, theta) nodes with both '
         'normalisations and non-boolean masks; Gauss-Legendre x uniform-angle quadrature of products of modes j, j\' <= 231 (orthonormality '
         'of the real functions); zernike_coordinates on random masks (even/odd sizes, off-centre blobs, weights incl. values <= 1e-8, explicit shift/rotate), '
         'one-sample and empty masks, non-finite caller coordinates outside the mask; Noll indices at 2^31, 2^32, 1e10 and row boundaries; '
-        'refusals (index < 1, rho without theta); '
+        'refusals (index < 1, rho without theta); the four (rho given?, theta given?) call forms of zernike on off-centre masks with caller coordinates that differ from the default ones (which coordinates were used is observed from the result and compared with the regenerated dispatch); '
         'distinct = canonical (kind, parameters) signature; non-trivial = n >= 2 / mask not symmetric about the array centre')
 TRUSTED = ['libm sqrt/cos/sin/atan2 agree with NumPy to 1e-9', 'np.angle = atan2(imag, real), np.abs = hypot, np.max over r*mask as modelled in Model/Zernike.lean']
 UNPROVEN = ['|Z_j| <= 1 on the unit disk without normalisation for n > 40: proved for n <= 20 (raw_mode_abs_le_one, exact Chebyshev certificate) and n <= 40 (raw_mode_abs_le_one_40, thorough tier) — a table, not a proof for all n',
             'orthonormality for 20 < n <= 40 is proved (zernike_orthonormal_40) but built and audited only by the THOROUGH tier (the exact integer '
             'Gram table takes ~5 min); the quick tier carries n <= 20']
-ASSUMPTIONS = ['caller-supplied rho/theta are ndarrays (lists raise AttributeError in R for j > 1: input validation, not judged)',
+ASSUMPTIONS = ['zernike(mask, j, theta=...) without rho ignores theta and uses the default coordinates (as coded; proved as the first case of coordinate_source_dispatch, generated, not judged by the oracle)',
+               'caller-supplied rho/theta are ndarrays (lists raise AttributeError in R for j > 1: input validation, not judged)',
                'the quantifier "all Noll indices up to a large bound" is carried for all j >= 1 on the index map and for n <= 40 (j <= 861) on the '
                'radial tables; beyond n = 40 the float evaluation of R cancels catastrophically',
                'azimuthal convention as coded: even j -> cos(m theta), odd j -> sin(m theta) with m < 0 (i.e. -sin(|m| theta))']
@@ -169,6 +170,14 @@ def generate(rng, tier):
     out.append({'kind': 'coords', 'shape': [4, 5], 'mask': [0.0] * 20, 'shift': None, 'rotate': 0.0, 'j': 4, 'normalize': True, 'one_sample': True, 'empty': True})
     out.append({'kind': 'refusal', 'what': 'index0'}); out.append({'kind': 'refusal', 'what': 'index-negative'})
     out.append({'kind': 'refusal', 'what': 'rho-without-theta'})
+    # where zernike takes its coordinates from: all four (rho given?, theta given?) combinations on off-centre masks
+    for k in range({'quick': 8, 'thorough': 80, 'search': 24}[tier]):
+        sh = (int(rng.integers(5, 10)), int(rng.integers(5, 10)))
+        m = (_mask(rng, sh) != 0).astype(float)
+        m[0, 0] = 1.0; m[sh[0] - 1, sh[1] - 2] = 1.0
+        out.append({'kind': 'zsrc', 'shape': list(sh), 'mask': [float(x) for x in m.ravel()], 'j': int(rng.integers(2, 22)),
+                    'normalize': bool(rng.integers(0, 2)), 'rho_none': bool(k % 2), 'theta_none': bool((k // 2) % 2),
+                    'cshift': [int(rng.integers(1, 5)) / 2, -int(rng.integers(1, 5)) / 2], 'crot': float([30, 90, -45, 60][int(rng.integers(0, 4))])})
     for k in range({'quick': 3, 'thorough': 20, 'search': 3}[tier]):
         sh = (int(rng.integers(3, 8)), int(rng.integers(3, 8)))
         m = np.zeros(sh); m[int(rng.integers(0, sh[0])), int(rng.integers(0, sh[1]))] = 1.0
@@ -185,6 +194,7 @@ def signature(c):
     if k == 'radial': return f"radial {c['n']} {c['m']} /{c['den']}"
     if k == 'zern': return f"zern {c['j']} {c['normalize']} {vlib.jhash([c['rho'], c['theta'], c['mask']])}"
     if k == 'gram': return f"gram {c['j']} {c['j2']}"
+    if k == 'zsrc': return f"zsrc {c['shape']} {vlib.jhash(c['mask'])} {c['j']} {c['normalize']} {c['rho_none']} {c['theta_none']} {c['cshift']} {c['crot']}"
     return f"coords {c['shape']} {vlib.jhash(c['mask'])} {c['shift']} {c['rotate']} {c.get('j')}"
 
 def nontrivial(c):
@@ -199,6 +209,7 @@ def tags(c):
     k = c['kind']; t = [k]
     if k == 'lean_thorough': return t + ['thorough-tier Lean module: orthonormality n<=40']
     if k == 'refusal': return t + ['refusal:' + c['what']]
+    if k == 'zsrc': return t + [f"zsrc:rho={'None' if c['rho_none'] else 'given'},theta={'None' if c['theta_none'] else 'given'}"]
     if k == 'zern':
         t += ['zern:normalized' if c['normalize'] else 'zern:raw', 'zern:n<=20' if c['j'] <= 231 else 'zern:n>20']
         if c.get('bad_outside'): t.append('zern:non-finite-coordinates-outside-mask')
@@ -265,6 +276,28 @@ def _impl(c):
     import lentil, sys
     Z = sys.modules['lentil.zernike']      # `lentil.zernike` the attribute is the function; the module lives in sys.modules
     k = c['kind']
+    if k == 'zsrc':
+        mask = np.array(c['mask']).reshape(c['shape'])
+        # caller coordinates deliberately different from the default ones (other origin, rotated)
+        rho_c, theta_c = Z.zernike_coordinates(mask, shift=tuple(c['cshift']), rotate=c['crot'])
+        kw = {}
+        if not c['rho_none']: kw['rho'] = rho_c.copy()
+        if not c['theta_none']: kw['theta'] = theta_c.copy()
+        try:
+            z = np.asarray(lentil.zernike(mask, c['j'], c['normalize'], **kw), dtype=float)
+        except ValueError:
+            return {'src': 'refuse'}
+        except Exception as e:
+            return {'src': 'raised ' + type(e).__name__}
+        rho_d, theta_d = Z.zernike_coordinates(mask)
+        z_d = np.asarray(lentil.zernike(mask, c['j'], c['normalize'], rho=rho_d, theta=theta_d), dtype=float)
+        z_c = np.asarray(lentil.zernike(mask, c['j'], c['normalize'], rho=rho_c, theta=theta_c), dtype=float)
+        on = mask != 0
+        ref_d = np.array([zern_ref(c['j'], c['normalize'], float(a), float(b)) for a, b in zip(rho_d[on], theta_d[on])])
+        is_d, is_c = bool(np.array_equal(z, z_d)), bool(np.array_equal(z, z_c))
+        return {'src': 'default' if is_d and not is_c else 'caller' if is_c and not is_d else 'ambiguous' if is_d else 'neither',
+                'default_matches_reference': bool(np.allclose(z_d[on], ref_d, rtol=0, atol=1e-9 * _zscale(c['j'], c['normalize'], 1.0) * 50)),
+                'zero_outside': bool(np.all(z[~on] == 0))}
     try:
         if k in ('index', 'index_list'):
             js = range(c['j0'], c['j1'] + 1) if k == 'index' else c['js']
@@ -314,6 +347,7 @@ def _impl(c):
 def requests(c, io):
     k = c['kind']
     if k in ('lean_thorough', 'refusal'): return []
+    if k == 'zsrc': return [{'op': 'zsrc', 'rho_none': c['rho_none'], 'theta_none': c['theta_none']}]
     if k == 'index': return [{'op': 'noll', 'j0': c['j0'], 'j1': c['j1']}]
     if k == 'index_list': return [{'op': 'noll_list', 'js': c['js']}]
     if k == 'radial':
@@ -352,6 +386,8 @@ def compare(c, io, mo):
     m = mo[0]
     if 'exc' in io: return f"implementation raised {io['exc']}: {io.get('msg')}"
     if not m.get('ok'): return f"model refused: {m.get('err')}"
+    if k == 'zsrc':
+        return None if io.get('src') == m['src'] else f"zernike(rho {'None' if c['rho_none'] else 'given'}, theta {'None' if c['theta_none'] else 'given'}) used coordinates '{io.get('src')}', the regenerated dispatch (Gen.zernCoordSrc) says '{m['src']}'"
     if k in ('index', 'index_list'):
         js = list(range(c['j0'], c['j1'] + 1)) if k == 'index' else c['js']
         for i, j in enumerate(js):
@@ -403,6 +439,13 @@ def oracle(c, io):
     k = c['kind']
     if k == 'refusal':
         return None if io.get('raised') == 'ValueError' else f"{c['what']}: expected ValueError (no Noll index < 1; rho needs theta), got {io.get('raised')}"
+    if k == 'zsrc':
+        want = 'refuse' if (not c['rho_none'] and c['theta_none']) else 'caller' if not c['rho_none'] else 'default'
+        if c['rho_none'] and not c['theta_none']: want = io.get('src') if io.get('src') in ('default', 'refuse') else 'default'   # theta without rho: ignored or refused, not judged
+        if io.get('src') != want: return f"zernike with rho {'None' if c['rho_none'] else 'given'} / theta {'None' if c['theta_none'] else 'given'}: coordinates '{io.get('src')}', expected '{want}'"
+        if want != 'refuse' and not io.get('zero_outside'): return 'zernike is not zero outside the mask'
+        if want != 'refuse' and not io.get('default_matches_reference'): return 'zernike on the default coordinates differs from the textbook mode at (rho, theta) about the centroid'
+        return None
     if k == 'lean_thorough':
         return None if io.get('ok') else f"thorough-tier theorems {c['theorems']} (radial Gram table and orthonormality for n <= 40) no longer check: {io.get('why')}"
     if 'exc' in io: return f"{k}: implementation raised {io['exc']}: {io.get('msg')}"
